@@ -87,6 +87,9 @@ func (fr *frame) callCommon(site ssa.Value, c *ssa.CallCommon, args []*Val, rt t
 	if e.inModule(callee) && len(callee.Blocks) > 0 && fr.depth < maxInlineDepth && e.inlinable(callee) {
 		return fr.inline(callee, args, bind, rt, pos)
 	}
+	if ft.fn == nil && e.inModule(callee) && len(callee.Blocks) > 0 && fr.depth < maxInlineDepth+1 && e.inlinableInLemma(callee) {
+		return fr.inlineWith(callee, args, bind, rt, pos, e.contractOf(callee))
+	}
 	if len(callee.Blocks) > 0 && callee.Parent() != nil && fr.depth < maxInlineDepth && e.inlinable(callee) {
 		return fr.inline(callee, args, bind, rt, pos)
 	}
@@ -112,6 +115,24 @@ func (fr *frame) havocCall(c *ssa.CallCommon) {
 		ft.havocComp(fr.cur.mem, k)
 		fr.checkLoopMod(k)
 	}
+}
+
+// inlinableInLemma: inside lemma blocks nested callees may contain loops (cut with their contract's invariants,
+// or simply havocked when the path through the loop is not taken) and may be larger.
+func (e *Env) inlinableInLemma(f *ssa.Function) bool {
+	n := 0
+	for _, b := range f.Blocks {
+		for _, in := range b.Instrs {
+			if _, isDbg := in.(*ssa.DebugRef); !isDbg {
+				n++
+			}
+			switch in.(type) {
+			case *ssa.Defer, *ssa.Go, *ssa.Select:
+				return false
+			}
+		}
+	}
+	return n <= 600 && f.Recover == nil
 }
 
 func (e *Env) inlinable(f *ssa.Function) bool {
